@@ -23,7 +23,7 @@ def gen_output(r, minor=5):
         return {'output_type': 'stream', 'name': r.choice(['stdout', 'stderr']), 'text': genjson.gen_text(r, r.choice([1, 2, 4]), seps=['\n'])}
     if t == 'error':
         return {'output_type': 'error', 'ename': 'ValueError', 'evalue': r.choice(['bad', 'worse']), 'traceback': ['line 1', 'line 2'][:r.choice([1, 2])]}
-    data = {m: gen_mime_value(r, m) for m in r.sample(MIMES, r.choice([1, 1, 2, 3]))}
+    data = {m: gen_mime_value(r, m) for m in r.sample(MIMES, r.choice([0, 1, 1, 1, 2, 3]))}   # sometimes an empty bundle
     md = r.choice([{}, {}, {'image/png': {'width': 10, 'height': [1, 2]}}, {'isolated': True, 'tags': ['x', 'y']}])
     items = [('output_type', t), ('data', data), ('metadata', md)]
     if t == 'execute_result': items.append(('execution_count', r.choice([1, 2, 3, None])))
@@ -54,11 +54,11 @@ def edit_output(r, o):
     o = copy.deepcopy(o)
     c = r.random()
     if o['output_type'] in ('display_data', 'execute_result'):
-        if c < 0.35:
+        if c < 0.35 and o['data']:
             k = r.choice(sorted(o['data'])); o['data'][k] = gen_mime_value(r, k)
         elif c < 0.55:
             m = r.choice(MIMES); o['data'][m] = gen_mime_value(r, m)
-        elif c < 0.7 and len(o['data']) > 1:
+        elif c < 0.7 and len(o['data']) > 0:
             del o['data'][r.choice(sorted(o['data']))]
         elif c < 0.9:
             o['metadata'] = r.choice([{}, {'isolated': False}, {'tags': ['z'], 'w': {'h': [3]}}])
